@@ -314,7 +314,11 @@ func HarnessC19OptionPairs() {
 	check := func(o c19Opt, tag string) {
 		lo := o.build()
 		if reuse {
-			*shared = *lo
+			// field by field, as a caller does (copying the whole struct would also reset
+			// whatever the options value keeps to itself)
+			shared.MaxElements, shared.Offset = lo.MaxElements, lo.Offset
+			shared.LowerAnchor, shared.UpperAnchor = lo.LowerAnchor, lo.UpperAnchor
+			shared.LatestAnchor, shared.FilterOptions = lo.LatestAnchor, lo.FilterOptions
 			lo = shared
 		}
 		got, gotE, err1, f1 := c19ReadAll(mg, m, q, lo, all)
